@@ -77,7 +77,24 @@ func (p *Prog) inlineSet(level int, only map[string]bool) error {
 	}
 	sites := map[*ssa.Function][]*ssa.Call{}
 	addrTaken := map[*ssa.Function]bool{}
-	for fn := range ssautil.AllFunctions(p.SSA) {
+	allFns := ssautil.AllFunctions(p.SSA)
+	// bound-method wrappers that some method value of the program still refers to
+	liveWrappers := func() map[*ssa.Function]bool {
+		live := map[*ssa.Function]bool{}
+		for fn := range allFns {
+			for _, b := range fn.Blocks {
+				for _, in := range b.Instrs {
+					if mc, ok := in.(*ssa.MakeClosure); ok {
+						if w, ok := mc.Fn.(*ssa.Function); ok && strings.Contains(w.Synthetic, "bound method wrapper") {
+							live[w] = true
+						}
+					}
+				}
+			}
+		}
+		return live
+	}
+	for fn := range allFns {
 		if fn.Blocks == nil {
 			continue
 		}
@@ -154,6 +171,7 @@ func (p *Prog) inlineSet(level int, only map[string]bool) error {
 		}
 		return level >= 2 && instrCount(g) <= smallHelper
 	}
+	devirtualised := map[*ssa.Function]bool{}
 	state := map[*ssa.Function]int{} // 1 = in progress, 2 = done
 	inlinedAll := map[*ssa.Function]bool{}
 	remaining := map[*ssa.Function]int{}
@@ -179,6 +197,37 @@ func (p *Prog) inlineSet(level int, only map[string]bool) error {
 						continue
 					}
 					if mc, isClo := call.Call.Value.(*ssa.MakeClosure); isClo && changed {
+						// a method value invoked directly (`withLock(r.rearm)` after withLock was inlined): call the method
+						if tgt := boundTarget(mc); tgt != nil && len(*mc.Referrers()) == 1 && len(mc.Bindings) == 1 {
+							refs := mc.Referrers()
+							*refs = (*refs)[:0]
+							recv := mc.Bindings[0]
+							call.Call.Value = tgt
+							call.Call.Args = append([]ssa.Value{recv}, call.Call.Args...)
+							if rr := recv.Referrers(); rr != nil {
+								*rr = append(*rr, call)
+								// the method value itself is dead now: take it out of its block
+								for i, u := range *rr {
+									if u == ssa.Instruction(mc) {
+										*rr = append((*rr)[:i:i], (*rr)[i+1:]...)
+										break
+									}
+								}
+							}
+							mb := mc.Block()
+							for i, x := range mb.Instrs {
+								if x == ssa.Instruction(mc) {
+									mb.Instrs = append(mb.Instrs[:i:i], mb.Instrs[i+1:]...)
+									break
+								}
+							}
+							devirtualised[tgt] = true
+							sites[tgt] = append(sites[tgt], call)
+							if eligible(tgt, F) && state[tgt] != 1 {
+								todo = append(todo, call)
+							}
+							continue
+						}
 						// a closure invoked directly (after its lock helper / wrapper was inlined), used nowhere else
 						if g, ok := mc.Fn.(*ssa.Function); ok && len(*mc.Referrers()) == 1 && state[g] != 1 && inRepo[g] {
 							todo = append(todo, call)
@@ -264,6 +313,42 @@ func (p *Prog) inlineSet(level int, only map[string]bool) error {
 	}
 	if firstErr != nil {
 		return firstErr
+	}
+	// a method whose only method value was turned into a direct call (and inlined) is no longer address-taken
+	if len(devirtualised) > 0 {
+		live := liveWrappers()
+		for g := range devirtualised {
+			other := false
+			for fn := range allFns {
+				if fn.Blocks == nil || (strings.Contains(fn.Synthetic, "bound method wrapper") && !live[fn]) {
+					continue
+				}
+				for _, b := range fn.Blocks {
+					for _, in := range b.Instrs {
+						_, isCall := in.(*ssa.Call)
+						for _, op := range in.Operands(nil) {
+							if *op == ssa.Value(g) {
+								if cc := CallCommon(in); isCall && cc != nil && cc.Value == ssa.Value(g) && inRepo[fn] {
+									asArg := false
+									for _, a := range cc.Args {
+										if a == ssa.Value(g) {
+											asArg = true
+										}
+									}
+									if !asArg {
+										continue
+									}
+								}
+								other = true
+							}
+						}
+					}
+				}
+			}
+			if !other {
+				delete(addrTaken, g)
+			}
+		}
 	}
 	// drop helpers that no longer execute on their own
 	var keep []*ssa.Function
@@ -388,4 +473,29 @@ func (p *Prog) HelperCallees(helpers []string) map[string][]string {
 		}
 	}
 	return out
+}
+
+
+// boundTarget: mc is a method value of a concrete receiver (closure over a bound-method wrapper): the method.
+func boundTarget(mc *ssa.MakeClosure) *ssa.Function {
+	w, ok := mc.Fn.(*ssa.Function)
+	if !ok || !strings.Contains(w.Synthetic, "bound method wrapper") {
+		return nil
+	}
+	var tgt *ssa.Function
+	n := 0
+	for _, b := range w.Blocks {
+		for _, in := range b.Instrs {
+			if c, ok := in.(*ssa.Call); ok {
+				n++
+				if !c.Call.IsInvoke() {
+					tgt = c.Call.StaticCallee()
+				}
+			}
+		}
+	}
+	if n != 1 {
+		return nil
+	}
+	return tgt
 }
